@@ -9,6 +9,7 @@ import Pymc.Proofs.HashInnerPlain
 import Pymc.Proofs.HashPooledCallManyExamples
 import Pymc.Proofs.HashInnerManyPlain
 import Pymc.Proofs.HashBroadcastExamples
+import Pymc.Proofs.HashBroadcastMixedExamples
 /-!
 # C01 — no reply is ever read by the wrong call
 
@@ -1811,5 +1812,139 @@ example :
   refine ⟨rfl, rfl, by decide +kernel⟩
 
 end hashpooledmany
+
+/-! ## 15. `HashClient`: what `close()` / `disconnect_all()` leaves open, in histories that mix key-addressed calls and broadcasts
+
+`C01_hash_broadcast_quit_close_leave_no_socket` says that the clients `client.close()` *was called on* have no socket.  It is
+not called on every registered client: `_safely_run_func(client, client.close, False)` returns `default_val` without calling
+the function for a client whose server has a failure record inside its retry window, and a `remove_server` that raises the
+`ValueError` of `hasher.remove_node` (`C13_hash_broadcast_bookkeeping_error_iff`) keeps the function from being called — on
+that client when `ignore_exc` swallows it, on that client *and all the clients after it* when it escapes.
+
+So "after `close()` no registered client holds a socket" is **false** as it stands (`…_closes_all_witness`: with
+`ignore_exc=False` the `ValueError` escapes and a healthy client keeps its socket; replayed on the real `HashClient`,
+`harness/hashbroadcast_close_replay.py`).  What is true (`…_closes_all_partial`): in every history whose clock never goes
+back, a `close()` that runs to its end — it always does with `ignore_exc=True` — leaves no registered client with a socket.
+The clients it skips are harmless because of an invariant of all such histories (`HashCall.OpenRetry`,
+`Pymc/Proofs/HashBroadcastClose.lean`): a registered client that holds a socket while its server has a failure record got that
+socket from a retry, made when the retry window had elapsed — a later `OSError` would have closed it
+(`PooledCall.stepTagged_oserror_closes`, `Pymc/Proofs/ClientOSErrorCloses.lean`), and the exceptions that leave it open (a
+`BaseException`, the `ValueError` of `incr`) leave the record alone — so with a monotone clock the window has still elapsed
+when `close()` comes and `client.close()` *is* called.  The hypothesis on the clock is needed (`…_clock_witness`). -/
+section hashbroadcastclose
+open HashCall
+
+variable {RK : Type}
+
+/-- C01 (`HashClient`, `close()` closes every registered client: **witness against the unrestricted statement**).
+`retry_attempts = 1`, `retry_timeout = 1`, `dead_timeout = 5`, `ignore_exc = False`, servers 0 and 1, server 0 down, a clock
+that never goes back (`HashBroadcastExamples.closeEscCalls`): `get k` → server 1 (client 1 holds a socket); four `flush_all()` at
+t = 0, 2, 4, 6 — server 0 is marked, retried, evicted and, out of rotation, marked and retried again, the `OSError` escaping
+each time; `close()` at t = 8: the attempts of server 0 are used up, `remove_server(0)` pops the record, sets the dead time
+and raises `ValueError` in `hasher.remove_node`; `except Exception` re-raises; `client.close()` is never called on client 1,
+which still holds its socket after `close()`.  With `ignore_exc = True` the same history ends with every socket closed. -/
+theorem C01_hash_broadcast_close_closes_all_witness :
+    let calls := HashBroadcastExamples.closeEscCalls
+    let r := runB {} HashCallExamples.cfgStrict Failover.prefRoute (init [0, 1] 0) 0 calls
+    ChronoB 0 calls ∧ calls[5]? = some (.broadcast .close HashBroadcastExamples.silent 8) ∧
+    (HashBroadcastExamples.xSummary r)[5]? = some (.inr (.bookkeeping 0 .valueError), [(0, none)]) ∧
+    HashBroadcastExamples.xState r =
+      ({ nodes := [1], failed := [], dead := [(0, 8)], lastDeadCheck := 0 }, [(0, 0, false, 0), (1, 1, true, 0)]) ∧
+    ¬ (∀ x ∈ r.1.clients, x.2.sockOpen = false) ∧
+    ∀ x ∈ (runB {} HashCallExamples.cfgIgnore Failover.prefRoute (init [0, 1] 0) 0 calls).1.clients, x.2.sockOpen = false := by
+  refine ⟨HashBroadcastExamples.chrono_closeEsc, rfl, by decide +kernel, by decide +kernel, by decide +kernel,
+    by decide +kernel⟩
+
+/-- C01 (`HashClient`, `close()` closes every registered client, **partial**: the clock never goes back, the loop of `close()`
+runs to its end).  Run any history of key-addressed calls and broadcasts on a fresh `HashClient`, the call times
+non-decreasing from the time of construction on (`HashCall.ChronoB`; no hypothesis on what arrives on the connections).  Let
+call `i` be a `close()` / `disconnect_all()`, made in the state `st` the first `i` calls lead to.  Then:
+1. the state after the first `i + 1` calls is the state this broadcast leaves;
+2. with `ignore_exc=True` the broadcast returns normally;
+3. it ends either normally or — `ignore_exc=False` — in the `ValueError` of `hasher.remove_node` raised for some server;
+4. **if `ignore_exc=True`, or the broadcast returned normally, then afterwards no client object registered in `self.clients`
+   holds a socket** — whether or not its server is in rotation, has a failure record, or was skipped by `_safely_run_func`.
+The excluded situation is exactly alternative 3 (decidable on the observation: `res ≠ .done`), the witness above. -/
+theorem C01_hash_broadcast_close_closes_all_partial (ccfg : Cfg) (fcfg : Failover.Cfg) (route : List Nat → RK → Option Nat)
+    (servers : List Nat) (t0 : Nat) (calls : List (BCall RK)) (hch : ChronoB t0 calls)
+    (i : Nat) (scripts : Nat → Script) (now : Nat) (hi : calls[i]? = some (.broadcast .close scripts now)) :
+    let st := (runB ccfg fcfg route (init servers t0) 0 (calls.take i)).1
+    let r := broadcastH ccfg fcfg st i now .close scripts
+    (runB ccfg fcfg route (init servers t0) 0 (calls.take (i + 1))).1 = r.1 ∧
+    (fcfg.ignoreExc = true → r.2.res = .done) ∧
+    (r.2.res = .done ∨ ((∃ s, r.2.res = .bookkeeping s .valueError) ∧ fcfg.ignoreExc = false)) ∧
+    ((fcfg.ignoreExc = true ∨ r.2.res = .done) → ∀ x ∈ r.1.clients, x.2.sockOpen = false) := by
+  intro st r
+  obtain ⟨T, hT, hor⟩ := runB_or_prefix ccfg route (init servers t0) 0 calls t0 (openRetry_init fcfg t0 servers t0) hch i _ hi
+  refine ⟨?_, fun hie => bloop_close_done ccfg i now scripts st st.servers hie,
+    bloop_close_res ccfg i now scripts st st.servers,
+    fun hd => broadcastH_close_all ccfg st i now scripts (openRetry_mono hT hor) hd⟩
+  have := runB_take_succ ccfg fcfg route (init servers t0) 0 calls i _ hi
+  rw [Nat.zero_add] at this
+  exact this
+
+/-- non-vacuity: `HashBroadcastExamples.lateCalls 2` (`ignore_exc=True`, the clock never goes back) — before the `close()` (call 2)
+client 0 holds a socket *and* server 0 has a failure record (the retry at t=2 connected, then `incr` raised the `ValueError`
+of `int()` after its exchange); the `close()` at t=2 finds the retry window elapsed, calls `client.close()` and leaves no
+socket.  And `closeEscCalls` with `ignore_exc=True`: the `ValueError` of `remove_node` is swallowed, `client.close()` is not
+called on client 0 (visited, not invoked), and still no socket is left -/
+example :
+    ChronoB 0 (HashBroadcastExamples.lateCalls 2) ∧
+    (HashBroadcastExamples.lateCalls 2)[2]? = some (.broadcast .close HashBroadcastExamples.silent 2) ∧
+    HashCallExamples.cfgIgnore.ignoreExc = true ∧
+    HashBroadcastExamples.xState
+        (runB {} HashCallExamples.cfgIgnore Failover.prefRoute (init [0, 1] 0) 0 ((HashBroadcastExamples.lateCalls 2).take 2)) =
+      ({ nodes := [0, 1], failed := [(0, 0, 0)], dead := [], lastDeadCheck := 0 }, [(0, 0, true, 0), (1, 1, false, 0)]) ∧
+    HashBroadcastExamples.xState
+        (runB {} HashCallExamples.cfgIgnore Failover.prefRoute (init [0, 1] 0) 0 (HashBroadcastExamples.lateCalls 2)) =
+      ({ nodes := [0, 1], failed := [], dead := [], lastDeadCheck := 0 }, [(0, 0, false, 0), (1, 1, false, 0)]) ∧
+    (HashBroadcastExamples.xSummary
+        (runB {} HashCallExamples.cfgIgnore Failover.prefRoute (init [0, 1] 0) 0 HashBroadcastExamples.closeEscCalls))[5]? =
+      some (.inr .done, [(0, none), (1, some 1)]) :=
+  ⟨HashBroadcastExamples.chrono_late, rfl, rfl, HashBroadcastExamples.demo_late.1, HashBroadcastExamples.demo_late.2.2.1,
+    by decide +kernel⟩
+
+/-- C01 (`HashClient`, `close()` closes every registered client: **the hypothesis on the clock is needed**).  `ignore_exc=True`
+(so no exception escapes `close()`): `get k` at t=0 → server 0, refused: marked; `incr k` at t=2 → server 0, the retry:
+connected, the reply line `x` makes `int()` raise `ValueError` after the exchange — the socket stays open, the failure record
+(failed at 0) stays; `close()` *at t=1* — the clock went back: `1 - 0 > retry_timeout` is false, `_safely_run_func` returns
+`False` without calling `client.close()`: `close()` returns normally and client 0 still holds its socket.  (Made at t=2 the
+same `close()` closes it: the example above.) -/
+theorem C01_hash_broadcast_close_closes_all_clock_witness :
+    let calls := HashBroadcastExamples.lateCalls 1
+    let r := runB {} HashCallExamples.cfgIgnore Failover.prefRoute (init [0, 1] 0) 0 calls
+    ¬ ChronoB 0 calls ∧ HashCallExamples.cfgIgnore.ignoreExc = true ∧
+    (HashBroadcastExamples.xSummary r)[2]? = some (.inr .done, [(0, none), (1, some 1)]) ∧
+    HashBroadcastExamples.xState r =
+      ({ nodes := [0, 1], failed := [(0, 0, 0)], dead := [], lastDeadCheck := 0 }, [(0, 0, true, 0), (1, 1, false, 0)]) ∧
+    ¬ (∀ x ∈ r.1.clients, x.2.sockOpen = false) := by
+  refine ⟨HashBroadcastExamples.not_chrono_late, rfl, by decide +kernel, HashBroadcastExamples.demo_late.2.2.2.2,
+    by decide +kernel⟩
+
+/-- C01 (`HashClient`, the invariant behind the partial statement).  In every history of key-addressed calls and broadcasts on
+a fresh `HashClient` whose clock never goes back, before every call (number `i`, made at `bc.now`): a registered client
+object that holds a socket while its server has a failure record `(attempts, failed_time)` has attempts left and its retry
+window has elapsed (`attempts < retry_attempts` and `bc.now - failed_time > retry_timeout`) — so the next
+`_safely_run_func` on it does call the function.  Consequently a client whose server is inside its retry window, or has
+used up its attempts, holds no socket. -/
+theorem C01_hash_broadcast_failed_client_socket (ccfg : Cfg) (fcfg : Failover.Cfg) (route : List Nat → RK → Option Nat)
+    (servers : List Nat) (t0 : Nat) (calls : List (BCall RK)) (hch : ChronoB t0 calls) (i : Nat) (bc : BCall RK)
+    (hi : calls[i]? = some bc) :
+    ∀ x ∈ (runB ccfg fcfg route (init servers t0) 0 (calls.take i)).1.clients, x.2.sockOpen = true →
+      ∀ a ft, Failover.alookup x.1 (runB ccfg fcfg route (init servers t0) 0 (calls.take i)).1.fo.failed = some (a, ft) →
+        a < fcfg.ra ∧ bc.now - ft > fcfg.rt := by
+  obtain ⟨T, hT, hor⟩ := runB_or_prefix ccfg route (init servers t0) 0 calls t0 (openRetry_init fcfg t0 servers t0) hch i bc hi
+  exact openRetry_mono hT hor
+
+/-- non-vacuity: before call 2 of `lateCalls 2` client 0 holds a socket and server 0 has the failure record `(0, 0)`:
+`0 < retry_attempts = 1` and `2 - 0 > retry_timeout = 1` -/
+example :
+    HashBroadcastExamples.xState
+        (runB {} HashCallExamples.cfgIgnore Failover.prefRoute (init [0, 1] 0) 0 ((HashBroadcastExamples.lateCalls 2).take 2)) =
+      ({ nodes := [0, 1], failed := [(0, 0, 0)], dead := [], lastDeadCheck := 0 }, [(0, 0, true, 0), (1, 1, false, 0)]) ∧
+    (0 < HashCallExamples.cfgIgnore.ra ∧ 2 - 0 > HashCallExamples.cfgIgnore.rt) :=
+  ⟨HashBroadcastExamples.demo_late.1, by decide⟩
+
+end hashbroadcastclose
 
 end C01
